@@ -4,6 +4,7 @@ from fractions import Fraction
 from xml.sax.saxutils import escape
 
 from bs4 import BeautifulSoup, NavigableString
+from bs4.formatter import XMLFormatter
 
 from ..base import (
     BaseReader, BaseWriter, CaptionSet, CaptionList, Caption, CaptionNode,
@@ -66,6 +67,23 @@ MICROSECONDS_PER_UNIT = {
 }
 
 DFXP_DEFAULT_LANGUAGE_CODE = "en"
+
+
+class _VerbatimTextFormatter(XMLFormatter):
+    """Output formatter of the DFXP writers: text is left alone (the writers
+    escape it themselves, because it carries the hand-made <span> and <br/>
+    markup), but attribute values are escaped.
+    """
+    def __init__(self):
+        super().__init__(entity_substitution=None)
+
+    def attribute_value(self, value):
+        return escape(value)
+
+
+def _escape_attribute(value):
+    """Escapes a value for the attributes written by hand, in <span> tags"""
+    return escape(str(value), {'"': '&quot;'})
 
 
 class DFXPReader(BaseReader):
@@ -394,7 +412,7 @@ class DFXPWriter(BaseWriter):
 
             body.append(div)
         self.region_creator.cleanup_regions()
-        caption_content = dfxp.prettify(formatter=None)
+        caption_content = dfxp.prettify(formatter=_VerbatimTextFormatter())
         return caption_content
 
     @staticmethod
@@ -481,7 +499,7 @@ class DFXPWriter(BaseWriter):
 
             content_with_style = _recreate_style(node.content, dfxp)
             for style, value in list(content_with_style.items()):
-                styles += f' {style}="{value}"'
+                styles += f' {style}="{_escape_attribute(value)}"'
             if node.layout_info:
                 region_id, region_attribs = (
                     self.region_creator.get_positioning_info(
